@@ -304,6 +304,31 @@ func checkC08(p *core.Program, r *core.Report) {
 		arg := ev.Resolve(hashEv.Term.Args[0])
 		if arg.K == tf.KSeq && len(arg.Args) == 1 && arg.Args[0].K == tf.KElem {
 			arg = arg.Args[0].Args[0] // variadic [][]byte{data}
+		} else if arg.K == tf.KSeq && len(arg.Args) > 1 {
+			// Hash(chunk1, chunk2, …) absorbs the chunks in order: the preimage is their concatenation
+			var parts []*tf.Term
+			flat := true
+			for _, a := range arg.Args {
+				switch a.K {
+				case tf.KElem:
+					parts = append(parts, tf.Splice(a.Args[0]))
+				case tf.KStar:
+					var sp []*tf.Term
+					for _, x := range a.Args {
+						if x.K == tf.KElem {
+							sp = append(sp, tf.Splice(x.Args[0]))
+						} else {
+							flat = false
+						}
+					}
+					parts = append(parts, &tf.Term{K: tf.KStar, Loop: a.Loop, Args: sp})
+				default:
+					flat = false
+				}
+			}
+			if flat {
+				arg = &tf.Term{K: tf.KSeq, Args: parts}
+			}
 		}
 		hh.Layout = byteLayout(ev, arg, bufWrites, false)
 		var bad []string
